@@ -51,6 +51,7 @@ class Impl(impl_system.Impl):
         self.xdims = None
         self.cfg = None
         self.tmp = None
+        self.variant = 0
         self.reset_cfg()
 
     def reset_cfg(self):
@@ -68,16 +69,26 @@ class Impl(impl_system.Impl):
             self.tmp = None
 
     def build(self):
-        processes = {n: Process(name=n, id=i) for i, n in enumerate(self.procs)}
+        # a system assembled by hand: process ids need not be positions (the environment keeps id 0), and
+        # values need not be C-contiguous in memory
+        n = len(self.procs)
+        ids = list(range(n))
+        if self.variant % 2 == 1 and n > 2 and self.procs[0] == "sysenv":
+            ids = [0] + list(range(n - 1, 0, -1))
+        processes = {nm: Process(name=nm, id=i) for i, nm in zip(ids, self.procs)}
         flows = {}
-        for name, fp, tp, dims, vals in self.flows:
+        for k, (name, fp, tp, dims, vals) in enumerate(self.flows):
             nm = untilde(name)
-            flows[nm] = Flow(name=nm, from_process=processes[fp], to_process=processes[tp], dims=dims,
-                             values=np.array(vals, dtype=float).reshape(dims.shape))
+            v = np.array(vals, dtype=float).reshape(dims.shape)
+            if (k + self.variant) % 2 == 0 and v.ndim >= 2:
+                v = np.asfortranarray(v)
+            flows[nm] = Flow(name=nm, from_process=processes[fp], to_process=processes[tp], dims=dims, values=v)
         stocks = {}
         for name, proc, dims, sv, iv, ov in self.stocks:
             nm = untilde(name)
-            mk = lambda v: StockArray(dims=dims, values=np.array(v, dtype=float).reshape(dims.shape))  # noqa: E731
+            def mk(v, dims=dims):
+                a = np.array(v, dtype=float).reshape(dims.shape)
+                return StockArray(dims=dims, values=np.asfortranarray(a) if (self.variant % 2 == 0 and a.ndim >= 2) else a)
             tl = dims.letters[0] if dims.letters else "t"
             stocks[nm] = SimpleFlowDrivenStock(dims=dims, name=nm, process=None if proc == "-" else processes[proc],
                                                                time_letter=tl, stock=mk(sv), inflow=mk(iv), outflow=mk(ov))
@@ -104,6 +115,7 @@ class Impl(impl_system.Impl):
         if op == "case":
             self.xdims = None
             self.reset_cfg()
+            self.variant = int(t[1]) if t[1].isdigit() else 0
             return super()._exec(t)
         if op == "x_dims":
             self.xdims = self.get(t[1], DimensionSet)
